@@ -55,7 +55,10 @@ pub fn check_all(c: &mut Checks, w: &World, miners: &[MinerH], stats: &mut CaseS
         if !c.changed("partition", m.id) {
             if c02 {
                 let (claim, _) = pv.claims.get(&m.id).cloned().unwrap_or_default();
-                let ap = c.cached_active.get(&m.id).cloned().unwrap_or_default();
+                let mut ap = c.cached_active.get(&m.id).cloned().unwrap_or_default();
+                if let Some(ph) = c.phantom.get(&m.id) {
+                    ap.add(ph);
+                }
                 vassert!(claim == ap, "claim-ne-active-sectors", "miner {} is credited {:?} but its proven, healthy, unexpired sectors sum to {:?}", m.id, claim, ap);
                 sum_claims.add(&claim);
             }
@@ -187,6 +190,11 @@ pub fn check_all(c: &mut Checks, w: &World, miners: &[MinerH], stats: &mut CaseS
         if c02 {
             let (claim, _) = pv.claims.get(&m.id).cloned().unwrap_or_default();
             c.cached_active.insert(m.id, active_power.clone());
+            let mut active_power = active_power.clone();
+            if let Some(ph) = c.phantom.get(&m.id) {
+                // genesis fixture: the idle 'whale' claim that gives the network a realistic size
+                active_power.add(ph);
+            }
             vassert!(claim == active_power, "claim-ne-active-sectors", "miner {} is credited {:?} but its proven, healthy, unexpired sectors sum to {:?}", m.id, claim, active_power);
             sum_claims.add(&claim);
             if !active_power.is_zero() {
